@@ -151,7 +151,7 @@ package controller
 //@   ensures Jlen == old(Jlen) + 1 ==> Jkind[old(Jlen)] == C_INCREASE && Jname[old(Jlen)] == gid(opts.nodeGroup) && Jnum[old(Jlen)] >= 1
 //@   ensures [C04] Jlen == old(Jlen) + 1 ==> tgt(gid(opts.nodeGroup)) + Jnum[old(Jlen)] <= cmax(gid(opts.nodeGroup))
 //@   ensures [C04] Jlen == old(Jlen) + 1 ==> tgt(gid(opts.nodeGroup)) + Jnum[old(Jlen)] <= opts.nodeGroup.Opts.MaxNodes
-//@   ensures [C04,C07] Jlen == old(Jlen) + 1 ==> Jnum[old(Jlen)] == min(opts.nodesDelta, min(opts.nodeGroup.Opts.MaxNodes, cmax(gid(opts.nodeGroup))) - tgt(gid(opts.nodeGroup)))
+//@   ensures [C04,C05,C07] Jlen == old(Jlen) + 1 ==> Jnum[old(Jlen)] == min(opts.nodesDelta, min(opts.nodeGroup.Opts.MaxNodes, cmax(gid(opts.nodeGroup))) - tgt(gid(opts.nodeGroup)))
 //@   ensures [C04] min(opts.nodeGroup.Opts.MaxNodes, cmax(gid(opts.nodeGroup))) - tgt(gid(opts.nodeGroup)) <= 0 ==> Jlen == old(Jlen) && err != nil
 //@   ensures err == nil ==> n >= 1 && n <= opts.nodesDelta
 //@   ensures err == nil && !dry(c, opts.nodeGroup) ==> Jlen == old(Jlen) + 1 && Jok[old(Jlen)] && Jnum[old(Jlen)] == n
@@ -208,7 +208,7 @@ package controller
 //@ func (*Controller).taintOldestN(c, nodes, nodeGroup, n) (res)
 //@   requires c != nil && nodeGroup != nil && c.Client != nil && n >= 0 && k8s.named(nodes)
 //@   requires [C01,C09,C10,C12] !dry(c, nodeGroup) ==> allU(nodes)
-//@   modifies Jlen, Jkind, Jname, Jnode, Jok, Jesc, clock, nTaintOK, nUntaintOK, getSeen, nodeGroup.taintTracker, elems(nodeGroup.taintTracker)
+//@   modifies Jlen, Jkind, Jname, Jnode, Jok, Jesc, clock, nTaintOK, nUntaintOK, getSeen, nGet, nKFail, nodeGroup.taintTracker, elems(nodeGroup.taintTracker)
 //@   ensures len(res) <= n && Jlen >= old(Jlen) && jprefix(old(Jlen)) && clock >= old(clock)
 //@   ensures [C03,C06] nUntaintOK == old(nUntaintOK) && old(nTaintOK) <= nTaintOK && nTaintOK - old(nTaintOK) <= len(res)
 //@   ensures [C11] dry(c, nodeGroup) ==> Jlen == old(Jlen)
@@ -236,13 +236,15 @@ package controller
 //@ func (*Controller).untaintNewestN(c, nodes, nodeGroup, n) (res)
 //@   requires c != nil && nodeGroup != nil && c.Client != nil && n >= 0 && k8s.named(nodes)
 //@   requires [C01,C09,C10,C12] !dry(c, nodeGroup) ==> allT(nodes)
-//@   modifies Jlen, Jkind, Jname, Jnode, Jok, Jesc, nTaintOK, nUntaintOK, getSeen, nodeGroup.taintTracker, elems(nodeGroup.taintTracker)
+//@   modifies Jlen, Jkind, Jname, Jnode, Jok, Jesc, nTaintOK, nUntaintOK, getSeen, nGet, nKFail, nodeGroup.taintTracker, elems(nodeGroup.taintTracker)
 //@   ensures len(res) <= n && Jlen >= old(Jlen) && jprefix(old(Jlen))
 //@   ensures [C03,C06,C07] nTaintOK == old(nTaintOK) && old(nUntaintOK) <= nUntaintOK && nUntaintOK - old(nUntaintOK) <= len(res)
 //@   ensures [C11] dry(c, nodeGroup) ==> Jlen == old(Jlen)
 //@   ensures forall k :: old(Jlen) <= k && k < Jlen ==> Jkind[k] == K_UPDATE
 //@   ensures [C01,C09,C10,C12] forall k :: old(Jlen) <= k && k < Jlen ==> LNby[Jname[k]] != nil && clsT(LNby[Jname[k]])
 //@   ensures [C07] !dry(c, nodeGroup) && len(res) < n ==> (forall i :: 0 <= i && i < len(nodes) && k8s.hasEsc(nodes[i]) ==> getSeen[nodes[i].Name])
+// C05/C07: outside dry mode the count reported is exactly the number of untaint attempts that did not fail
+//@   ensures [C05,C07] !dry(c, nodeGroup) ==> len(res) == (nGet - old(nGet)) - (nKFail - old(nKFail))
 //@ loop #0
 //@   modifies elems(sorted)
 //@   invariant len(sorted) == #i && base(sorted) == entry(base(sorted)) && cap(sorted) == len(nodes) && off(sorted) == 0
@@ -253,6 +255,7 @@ package controller
 //@   invariant len(untaintedIndices) <= n && Jlen >= old(Jlen) && jprefix(old(Jlen))
 //@   invariant [C03,C06,C07] nTaintOK == old(nTaintOK) && old(nUntaintOK) <= nUntaintOK && nUntaintOK - old(nUntaintOK) <= len(untaintedIndices)
 //@   invariant dry(c, nodeGroup) ==> Jlen == old(Jlen)
+//@   invariant [C05,C07] !dry(c, nodeGroup) ==> len(untaintedIndices) == (nGet - old(nGet)) - (nKFail - old(nKFail))
 //@   invariant forall k :: old(Jlen) <= k && k < Jlen ==> Jkind[k] == K_UPDATE
 //@   invariant [C01,C09,C10,C12] forall k :: old(Jlen) <= k && k < Jlen ==> LNby[Jname[k]] != nil && clsT(LNby[Jname[k]])
 //@   invariant forall p :: 0 <= p && p < len(sorted) ==> sorted[p].node != nil && 0 <= sorted[p].index && sorted[p].index < len(nodes) && sorted[p].node == nodes[sorted[p].index]
@@ -267,13 +270,14 @@ package controller
 //@ func (*Controller).scaleUpUntaint(c, opts) (n, err)
 //@   requires c != nil && opts.nodeGroup != nil && c.Client != nil && opts.nodesDelta >= 0 && k8s.named(opts.taintedNodes)
 //@   requires [C01,C09,C10,C12] !dry(c, opts.nodeGroup) ==> allT(opts.taintedNodes)
-//@   modifies Jlen, Jkind, Jname, Jnode, Jok, Jesc, nTaintOK, nUntaintOK, getSeen, opts.nodeGroup.taintTracker, elems(opts.nodeGroup.taintTracker)
+//@   modifies Jlen, Jkind, Jname, Jnode, Jok, Jesc, nTaintOK, nUntaintOK, getSeen, nGet, nKFail, opts.nodeGroup.taintTracker, elems(opts.nodeGroup.taintTracker)
 //@   ensures err == nil && 0 <= n && n <= opts.nodesDelta && Jlen >= old(Jlen) && jprefix(old(Jlen))
 //@   ensures [C03,C06,C07] nTaintOK == old(nTaintOK) && old(nUntaintOK) <= nUntaintOK && nUntaintOK - old(nUntaintOK) <= n
 //@   ensures [C11] dry(c, opts.nodeGroup) ==> Jlen == old(Jlen)
 //@   ensures forall k :: old(Jlen) <= k && k < Jlen ==> Jkind[k] == K_UPDATE
 //@   ensures [C01,C09,C10,C12] forall k :: old(Jlen) <= k && k < Jlen ==> LNby[Jname[k]] != nil && clsT(LNby[Jname[k]])
 //@   ensures [C07] !dry(c, opts.nodeGroup) && n < opts.nodesDelta ==> (forall i :: 0 <= i && i < len(opts.taintedNodes) && k8s.hasEsc(opts.taintedNodes[i]) ==> getSeen[opts.taintedNodes[i].Name])
+//@   ensures [C05,C07] !dry(c, opts.nodeGroup) ==> n == (nGet - old(nGet)) - (nKFail - old(nKFail))
 
 // ScaleUp. C07: untaint first; at most one cloud request, as the last event, for exactly the
 // remainder after the clamp; never while a tainted node was left unattempted.
@@ -281,7 +285,7 @@ package controller
 //@ func (*Controller).ScaleUp(c, opts) (n, err)
 //@   requires c != nil && opts.nodeGroup != nil && c.Client != nil && c.cloudProvider != nil && opts.nodesDelta >= 0 && k8s.named(opts.taintedNodes)
 //@   requires [C01,C09,C10,C12] !dry(c, opts.nodeGroup) ==> allT(opts.taintedNodes)
-//@   modifies Jlen, Jkind, Jname, Jnode, Jok, Jesc, Jnum, nTaintOK, nUntaintOK, getSeen, clock, opts.nodeGroup.taintTracker, elems(opts.nodeGroup.taintTracker), opts.nodeGroup.scaleUpLock.isLocked, opts.nodeGroup.scaleUpLock.requestedNodes, opts.nodeGroup.scaleUpLock.lockTime
+//@   modifies Jlen, Jkind, Jname, Jnode, Jok, Jesc, Jnum, nTaintOK, nUntaintOK, getSeen, nGet, nKFail, clock, opts.nodeGroup.taintTracker, elems(opts.nodeGroup.taintTracker), opts.nodeGroup.scaleUpLock.isLocked, opts.nodeGroup.scaleUpLock.requestedNodes, opts.nodeGroup.scaleUpLock.lockTime
 //@   ensures Jlen >= old(Jlen) && jprefix(old(Jlen)) && clock >= old(clock)
 //@   ensures [C03,C06,C07] nTaintOK == old(nTaintOK) && old(nUntaintOK) <= nUntaintOK && nUntaintOK - old(nUntaintOK) <= opts.nodesDelta
 //@   ensures [C11] dry(c, opts.nodeGroup) ==> Jlen == old(Jlen)
@@ -289,6 +293,8 @@ package controller
 //@   ensures [C01,C09,C10,C12] forall k :: old(Jlen) <= k && k < Jlen && Jkind[k] == K_UPDATE ==> LNby[Jname[k]] != nil && clsT(LNby[Jname[k]])
 //@   ensures [C04] forall k :: old(Jlen) <= k && k < Jlen && Jkind[k] == C_INCREASE ==> tgt(gid(opts.nodeGroup)) + Jnum[k] <= min(opts.nodeGroup.Opts.MaxNodes, cmax(gid(opts.nodeGroup)))
 //@   ensures [C07] Jlen > old(Jlen) && Jkind[Jlen - 1] == C_INCREASE ==> (exists u :: 0 <= u && u < opts.nodesDelta && nUntaintOK - old(nUntaintOK) <= u && Jnum[Jlen - 1] == min(opts.nodesDelta - u, min(opts.nodeGroup.Opts.MaxNodes, cmax(gid(opts.nodeGroup))) - tgt(gid(opts.nodeGroup))))
+// C05/C07: the amount requested from the cloud is what is left of the delta after the untaints that did not fail (clamped to the headroom)
+//@   ensures [C05,C07] Jlen > old(Jlen) && Jkind[Jlen - 1] == C_INCREASE && !dry(c, opts.nodeGroup) ==> Jnum[Jlen - 1] == min(opts.nodesDelta - ((nGet - old(nGet)) - (nKFail - old(nKFail))), min(opts.nodeGroup.Opts.MaxNodes, cmax(gid(opts.nodeGroup))) - tgt(gid(opts.nodeGroup)))
 //@   ensures [C07] Jlen > old(Jlen) && Jkind[Jlen - 1] == C_INCREASE && !dry(c, opts.nodeGroup) ==> (forall i :: 0 <= i && i < len(opts.taintedNodes) && k8s.hasEsc(opts.taintedNodes[i]) ==> getSeen[opts.taintedNodes[i].Name])
 //@   ensures [C02,C18] (Jlen > old(Jlen) && Jkind[Jlen - 1] == C_INCREASE && Jok[Jlen - 1]) ==> opts.nodeGroup.scaleUpLock.isLocked && opts.nodeGroup.scaleUpLock.lockTime == clock
 //@   ensures [C02,C18] !(Jlen > old(Jlen) && Jkind[Jlen - 1] == C_INCREASE && Jok[Jlen - 1]) && !dry(c, opts.nodeGroup) ==> opts.nodeGroup.scaleUpLock.isLocked == old(opts.nodeGroup.scaleUpLock.isLocked) && opts.nodeGroup.scaleUpLock.lockTime == old(opts.nodeGroup.scaleUpLock.lockTime) && opts.nodeGroup.scaleUpLock.requestedNodes == old(opts.nodeGroup.scaleUpLock.requestedNodes)
@@ -299,7 +305,7 @@ package controller
 //@ func (*Controller).scaleDownTaint(c, opts) (n, err)
 //@   requires c != nil && opts.nodeGroup != nil && c.Client != nil && opts.nodesDelta >= 0 && k8s.named(opts.untaintedNodes)
 //@   requires [C01,C09,C10,C12] !dry(c, opts.nodeGroup) ==> allU(opts.untaintedNodes)
-//@   modifies Jlen, Jkind, Jname, Jnode, Jok, Jesc, clock, nTaintOK, nUntaintOK, getSeen, opts.nodeGroup.taintTracker, elems(opts.nodeGroup.taintTracker)
+//@   modifies Jlen, Jkind, Jname, Jnode, Jok, Jesc, clock, nTaintOK, nUntaintOK, getSeen, nGet, nKFail, opts.nodeGroup.taintTracker, elems(opts.nodeGroup.taintTracker)
 //@   ensures Jlen >= old(Jlen) && jprefix(old(Jlen)) && clock >= old(clock)
 //@   ensures [C03,C06] nUntaintOK == old(nUntaintOK) && old(nTaintOK) <= nTaintOK && nTaintOK - old(nTaintOK) <= max(0, len(opts.untaintedNodes) - opts.nodeGroup.Opts.MinNodes) && nTaintOK - old(nTaintOK) <= opts.nodesDelta
 //@   ensures [C03] len(opts.untaintedNodes) < opts.nodeGroup.Opts.MinNodes ==> err != nil && Jlen == old(Jlen) && nTaintOK == old(nTaintOK)
@@ -394,7 +400,7 @@ package controller
 //@   requires c != nil && opts.nodeGroup != nil && c.Client != nil && c.cloudProvider != nil && k8s.named(opts.taintedNodes) && k8s.named(opts.untaintedNodes) && opts.nodesDelta >= 0
 //@   requires k8s.infoMapOK(opts.nodeGroup.NodeInfoMap) && durCacheOK(optsOf(opts.nodeGroup))
 //@   requires [C01,C09,C10,C12] !dry(c, opts.nodeGroup) ==> allT(opts.taintedNodes) && allU(opts.untaintedNodes)
-//@   modifies Jlen, Jkind, Jname, Jnode, Jok, Jesc, Jerr, clock, nTaintOK, nUntaintOK, getSeen, opts.nodeGroup.taintTracker, elems(opts.nodeGroup.taintTracker), opts.nodeGroup.Opts.softDeleteGracePeriodDuration, opts.nodeGroup.Opts.hardDeleteGracePeriodDuration
+//@   modifies Jlen, Jkind, Jname, Jnode, Jok, Jesc, Jerr, clock, nTaintOK, nUntaintOK, getSeen, nGet, nKFail, opts.nodeGroup.taintTracker, elems(opts.nodeGroup.taintTracker), opts.nodeGroup.Opts.softDeleteGracePeriodDuration, opts.nodeGroup.Opts.hardDeleteGracePeriodDuration
 //@   ensures [C19] forall k :: old(Jlen) <= k && k < Jlen && Jkind[k] == C_DELNODE && isNotInGroup(Jerr[k]) ==> isNotInGroup(err)
 //@   ensures Jlen >= old(Jlen) && jprefix(old(Jlen)) && clock >= old(clock) && durCacheOK(optsOf(opts.nodeGroup))
 //@   ensures [C11] dry(c, opts.nodeGroup) ==> Jlen == old(Jlen)
@@ -526,7 +532,7 @@ package controller
 //@ func (*Controller).scaleNodeGroup(c, nodegroup, nodeGroup) (delta, err)
 //@   requires c != nil && c.Client != nil && c.cloudProvider != nil && groupInv(nodeGroup)
 //@   requires [C05,C06] 0 <= nodeGroup.Opts.SlowNodeRemovalRate && nodeGroup.Opts.SlowNodeRemovalRate <= nodeGroup.Opts.FastNodeRemovalRate && 0 < nodeGroup.Opts.TaintLowerCapacityThresholdPercent && nodeGroup.Opts.TaintLowerCapacityThresholdPercent < nodeGroup.Opts.TaintUpperCapacityThresholdPercent && nodeGroup.Opts.TaintUpperCapacityThresholdPercent < nodeGroup.Opts.ScaleUpThresholdPercent
-//@   modifies Jlen, Jkind, Jname, Jnode, Jok, Jesc, Jnum, Jerr, clock, nTaintOK, nUntaintOK, getSeen, LNb, LNo, LNl, LNby, LNok, LPb, LPo, LPl, nScans
+//@   modifies Jlen, Jkind, Jname, Jnode, Jok, Jesc, Jnum, Jerr, clock, nTaintOK, nUntaintOK, getSeen, nGet, nKFail, LNb, LNo, LNl, LNby, LNok, LPb, LPo, LPl, nScans
 //@   ensures nScans == old(nScans) + 1
 //@   ensures forall g2 *NodeGroupState :: allocated(g2) && g2 != nodeGroup && old(groupInv(g2)) ==> groupInv(g2)
 //@   ensures [C19] forall k :: old(Jlen) <= k && k < Jlen && Jkind[k] == C_DELNODE && isNotInGroup(Jerr[k]) ==> isNotInGroup(err)
@@ -576,7 +582,7 @@ package controller
 //@ func (*Controller).RunOnce(c) (err)
 //@   requires ctlInv(c)
 //@   requires [C03] forall i, j :: 0 <= i && i < j && j < len(c.Opts.NodeGroups) ==> c.nodeGroups[c.Opts.NodeGroups[i].Name] != c.nodeGroups[c.Opts.NodeGroups[j].Name]
-//@   modifies Jlen, Jkind, Jname, Jnode, Jok, Jesc, Jnum, Jerr, clock, nTaintOK, nUntaintOK, getSeen, LNb, LNo, LNl, LNby, LNok, LPb, LPo, LPl, nScans, nBuildFail, c.cloudProvider
+//@   modifies Jlen, Jkind, Jname, Jnode, Jok, Jesc, Jnum, Jerr, clock, nTaintOK, nUntaintOK, getSeen, nGet, nKFail, LNb, LNo, LNl, LNby, LNok, LPb, LPo, LPl, nScans, nBuildFail, c.cloudProvider
 //@   modifies mapvals(c.nodeGroups), allof("[]string")
 //@   ensures [C20] err == nil ==> ctlInv(c)
 //@   ensures [C12,C20] err != nil && nBuildFail == old(nBuildFail) ==> isNotInGroup(err) || isPlainErr(err)
